@@ -5,6 +5,7 @@
    *_current_* state what the pinned code does instead (findings F3, F4, F5 and the dropped
    CorrFunc member). *)
 From Verif Require Import Prelude Containers ContainersP ContainersAcc ContainersAccP Cursors CursorsP.
+From Verif Require Import ContainersWide ContainersWideP.
 Open Scope Q_scope.
 
 (* ---------------- addition ---------------- *)
@@ -397,3 +398,136 @@ Example C17_cursor_concrete :
       c17_cursor_case [VPC c] z (irun (c_len [VPC c]) (c_get [VPC c]) z) = 0%nat
       /\ c17_cursor_case [VPC c] z (hrun (c_len [VPC c]) (c_get [VPC c]) z) = (1 + 2 + 8 + 16 * 4)%nat).
 Proof. vm_compute. repeat split; reflexivity. Qed.
+
+(* ---------------- many patches / bins, index expressions of every representation ---------------- *)
+(* Model/ContainersWide.v: the index VALUES are unbounded integers whatever their representation (python int,
+   numpy scalar, list, integer array of any dtype, boolean mask); containers with thousands of patches are
+   functions of the position.  Selecting on the function is selecting on the materialised container ... *)
+Theorem C17_wide_patches_is_model : forall bin auto nb P f I,
+  (1 <= nb)%nat -> fpc_select_patches bin auto nb P f I = pc_select_patches (pc_of_fun bin auto nb P f) I.
+Proof. exact fpc_select_patches_model. Qed.
+Print Assumptions C17_wide_patches_is_model.
+Theorem C17_wide_bins_is_model : forall bin auto nb P f I,
+  fpc_select_bins bin auto nb P f I = pc_select_bins (pc_of_fun bin auto nb P f) I.
+Proof. exact fpc_select_bins_model. Qed.
+Print Assumptions C17_wide_bins_is_model.
+Theorem C17_wide_weights_patches_is_model : forall bin auto nb P g1 g2 I,
+  (1 <= nb)%nat -> fsw_select_patches bin auto nb P g1 g2 I = sw_select_patches (sw_of_fun bin auto nb P g1 g2) I.
+Proof. exact fsw_select_patches_model. Qed.
+Print Assumptions C17_wide_weights_patches_is_model.
+Theorem C17_wide_weights_bins_is_model : forall bin auto nb P g1 g2 I,
+  fsw_select_bins bin auto nb P g1 g2 I = sw_select_bins (sw_of_fun bin auto nb P g1 g2) I.
+Proof. exact fsw_select_bins_model. Qed.
+Print Assumptions C17_wide_weights_bins_is_model.
+Theorem C17_wide_sampled_bins_is_model : forall bin nb M d s I,
+  fsd_select bin nb M d s I = sd_select (sd_of_fun bin nb M d s) I.
+Proof. exact fsd_select_model. Qed.
+Print Assumptions C17_wide_sampled_bins_is_model.
+
+(* ... entry (a, c) of the selection is entry (I_a, I_c) of the original, for every number of patches ... *)
+Theorem C17_wide_patches_entry : forall bin auto nb P f I r,
+  fpc_select_patches bin auto nb P f I = Some r ->
+  pc_bin r = bin /\ pc_auto r = auto /\ pc_nb r = nb /\ all_lt P I = true /\
+  forall b a c, (b < nb)%nat -> (a < length I)%nat -> (c < length I)%nat ->
+    nth3 (pc_counts r) b a c = f b (nth a I 0%nat) (nth c I 0%nat).
+Proof. exact wide_patches_entry. Qed.
+Print Assumptions C17_wide_patches_entry.
+(* ... and the selected counts and sums of weights describe the same sub-catalogue *)
+Theorem C17_wide_same_subcatalogue : forall bin auto nb P f g1 g2 I rc rs,
+  fpc_select_patches bin auto nb P f I = Some rc ->
+  fsw_select_patches bin auto nb P g1 g2 I = Some rs ->
+  forall b a c, (b < nb)%nat -> (a < length I)%nat -> (c < length I)%nat ->
+    exists p q, p = nth a I 0%nat /\ q = nth c I 0%nat /\ (p < P)%nat /\ (q < P)%nat /\
+      nth3 (pc_counts rc) b a c = f b p q /\
+      nth a (nth b (sw1 rs) []) 0 = g1 b p /\ nth c (nth b (sw2 rs) []) 0 = g2 b q.
+Proof. exact wide_same_subcatalogue. Qed.
+Print Assumptions C17_wide_same_subcatalogue.
+
+(* boolean masks select the positions where they are True; a mask of another length is rejected *)
+Theorem C17_wide_mask_positions : forall n m I,
+  wresolve n (WMask m) = Some I ->
+  length m = n /\ all_lt n I = true /\ forall i, In i I <-> nth i m false = true.
+Proof. exact wide_mask_positions. Qed.
+Print Assumptions C17_wide_mask_positions.
+Theorem C17_wide_mask_wrong_length_rejected : forall n m, length m <> n -> wresolve n (WMask m) = None.
+Proof. exact wide_mask_wrong_length_rejected. Qed.
+Print Assumptions C17_wide_mask_wrong_length_rejected.
+
+(* the position-coded containers of the correspondence: two entries are equal only at the same position, so a
+   result equal to the model's reads every entry from the right patch pair *)
+Theorem C17_wide_code_injective : forall off P b i j b' i' j',
+  (i < P)%nat -> (j < P)%nat -> (i' < P)%nat -> (j' < P)%nat ->
+  code3 off P b i j == code3 off P b' i' j' -> b = b' /\ i = i' /\ j = j'.
+Proof. exact code3_injective. Qed.
+Print Assumptions C17_wide_code_injective.
+Theorem C17_wide_case_sound : forall strict leaf c ax w impl,
+  c17_wide_case strict leaf c ax w impl = 0%nat ->
+  (wobs_eqb impl (wmodel leaf c ax w) = true \/ (strict = false /\ impl = WErr)) /\
+  w_wf c = true /\ wobs_wfb impl = true /\
+  (wmodel leaf c ax w = WErr -> impl = WErr).
+Proof. exact wide_case_sound. Qed.
+Print Assumptions C17_wide_case_sound.
+Theorem C17_wide_model_is_pc_patches : forall c s,
+  w_wf c = true ->
+  wmodel LPC c WPatches (WSel s)
+  = wlift WPC (pc_patches (pc_of_fun (w_bin c) (w_auto c) (w_nb c) (w_np c) (w_counts c)) s).
+Proof. exact wide_model_is_pc_patches. Qed.
+Print Assumptions C17_wide_model_is_pc_patches.
+
+(* gathering the sub-matrix through the flattened patch-pair axis at I_a * P + I_c: the selection, when the
+   arithmetic is done in unbounded integers or in a type that holds all P * P positions ... *)
+Theorem C17_flat_select_unbounded : forall bin auto nb P f I,
+  fpc_select_patches_flat IUnbounded bin auto nb P f I = fpc_select_patches bin auto nb P f I.
+Proof. exact flat_select_unbounded_is_selection. Qed.
+Print Assumptions C17_flat_select_unbounded.
+Theorem C17_flat_select_wide_enough : forall w bin auto nb P f I,
+  (0 < w)%Z -> (Z.of_nat P * Z.of_nat P <= 2 ^ (w - 1))%Z ->
+  fpc_select_patches_flat (ISigned w) bin auto nb P f I = fpc_select_patches bin auto nb P f I.
+Proof. exact flat_select_signed_wide_enough. Qed.
+Print Assumptions C17_flat_select_wide_enough.
+Theorem C17_flat_int16_exact_upto_181 : forall P i j,
+  (P <= 181)%Z -> (0 <= i < P)%Z -> (0 <= j < P)%Z -> flat_index (ISigned 16) P i j = Some (i * P + j)%Z.
+Proof. exact flat_index_int16_exact_upto_181. Qed.
+Print Assumptions C17_flat_int16_exact_upto_181.
+(* ... and refuted in int16, the library's own patch-id dtype, from 182 patches on: the flat positions are
+   computed modulo 2^16 and the entry of another patch pair is returned without any error *)
+Theorem C17_flat_int16_refuted_182 :
+  flat_index (ISigned 16) 182 181 0 = Some 530%Z /\ unflat 182 530 = (2, 166)%Z /\
+  flat_index IUnbounded 182 181 0 = Some 32942%Z /\ unflat 182 32942 = (181, 0)%Z.
+Proof. exact flat_int16_refuted_182. Qed.
+Print Assumptions C17_flat_int16_refuted_182.
+Theorem C17_flat_int16_wrong_from_182 : forall P,
+  (182 <= P <= 32768)%Z -> P <> 256%Z ->
+  (0 <= int16_witness P < P)%Z /\
+  flat_index (ISigned 16) P (int16_witness P) 0 <> Some (int16_witness P * P)%Z.
+Proof. exact flat_int16_wrong_from_182. Qed.
+Print Assumptions C17_flat_int16_wrong_from_182.
+(* 256 patches is the one size where the wrap-around cancels (so the number of patches has to be varied);
+   int8 is lost from 12 patches on, uint8 from 17 *)
+Theorem C17_flat_int16_256_exact : flat_exact_b (ISigned 16) 256 = true.
+Proof. exact flat_int16_256_exact. Qed.
+Print Assumptions C17_flat_int16_256_exact.
+Theorem C17_flat_int8_uint8_thresholds :
+  flat_exact_b (ISigned 8) 11 = true /\ flat_exact_b (ISigned 8) 12 = false /\
+  flat_exact_b (IUnsigned 8) 16 = true /\ flat_exact_b (IUnsigned 8) 17 = false.
+Proof. exact flat_int8_uint8_thresholds. Qed.
+Print Assumptions C17_flat_int8_uint8_thresholds.
+
+(* non-vacuity: 200 position-coded patches, x.patches[[150, -1, 181]].  The checker accepts the sub-matrix
+   (code 0), flags the matrix gathered with int16 arithmetic (code 1: rows of patches 199 and 181 come from
+   other patch pairs), flags a rejection of this valid selection (code 1), accepts the rejection of a numpy
+   scalar (not a documented index type) and flags an out-of-range index that was not rejected (code 1 + 4) *)
+Example C17_wide_concrete :
+  (exists r, fpc_select_patches (w_bin wide_example) false 2 200 (w_counts wide_example) [150; 199; 181]%nat = Some r
+     /\ nth 0 (pc_counts r) [] = [[30150; 30199; 30181]; [39950; 39999; 39981]; [36350; 36399; 36381]]
+     /\ c17_wide_case true LPC wide_example WPatches wide_example_sel (WPC r) = 0%nat)
+  /\ (exists r, fpc_select_patches_flat (ISigned 16) (w_bin wide_example) false 2 200 (w_counts wide_example)
+                  [150; 199; 181]%nat = Some r
+     /\ nth 0 (pc_counts r) [] = [[30150; 30199; 30181]; [14414; 14463; 14445]; [10814; 10863; 10845]]
+     /\ c17_wide_case true LPC wide_example WPatches wide_example_sel (WPC r) = 1%nat)
+  /\ c17_wide_case true LPC wide_example WPatches wide_example_sel WErr = 1%nat
+  /\ c17_wide_case false LPC wide_example WPatches (WSel (SInt 199)) WErr = 0%nat
+  /\ c17_wide_case true LPC wide_example WPatches (WSel (SList [200]%Z))
+       (WPC (pc_of_fun (w_bin wide_example) false 2 1 (fun _ _ _ => 0))) = 5%nat.
+Proof. exact wide_example_refuted. Qed.
+Print Assumptions C17_wide_concrete.
